@@ -1,5 +1,7 @@
 pub mod c15;
+pub mod c11;
 pub mod c16;
+pub mod dump;
 pub mod ind;
 
 use serde_json::Value;
